@@ -3,7 +3,7 @@
 set -e
 export GOFLAGS=-mod=mod GOPROXY=off GOSUMDB=off GOTOOLCHAIN=local
 S=${1:-/var/tmp/sg}
-rm -rf $S && mkdir -p $S/cases && rsync -a --exclude .git /repo/ $S/repo/ && rsync -a /verif/simrt/ $S/simrt/ && rsync -a /verif/harness/ $S/harness/
+rm -rf $S && mkdir -p $S/cases && rsync -a --exclude .git ${SRC:-/repo}/ $S/repo/ && rsync -a /verif/simrt/ $S/simrt/ && rsync -a /verif/harness/ $S/harness/
 (cd /verif/simgen && go1.26.8 build -o /verif/bin/simgen .)
 (cd $S/repo && PATH=/opt/veriftools/go1.26.8/bin:$PATH /verif/bin/simgen -root $S/repo -simrt ../simrt -report $S/report.json . util html html/core q)
 cp $S/repo/go.sum $S/harness/go.sum
